@@ -258,6 +258,15 @@ async fn history(rng: &mut Rng, h: u64, strategy: AssignmentStrategy, f: &mut st
                 }
                 Ok(Ok(Some(node))) => {
                     let now_ok = registry.get_node(&node.id).await.map(|i| i.can_accept_writes()).unwrap_or(false);
+                    // what the history itself says, independently of the registry's bookkeeping: a node that was
+                    // drained (and not registered again since), a query-only node and a node whose last reported
+                    // load is 95 % or more must not be handed out, whatever status the registry shows for it
+                    let by_history = model.get(&node.id).map(|m| m.status != NodeStatus::Draining && m.ty != NodeType::Query && m.load < 95);
+                    if by_history == Some(false) && now_ok {
+                        violations.push(json!({"sig": "C19/routed-to-ineligible-node",
+                            "what": format!("route_write({}) returned node {} which the history makes ineligible (drained / query-only / overloaded: {:?}) although the registry reports it eligible", shard, node.id, model.get(&node.id).map(|m| format!("{:?} {:?} load={}", m.ty, m.status, m.load))),
+                            "witness": wit(json!({"node": format!("{:?}", node)}))}));
+                    }
                     if !now_ok {
                         violations.push(json!({"sig": "C19/routed-to-ineligible-node",
                             "what": format!("route_write({}) returned node {} which cannot accept writes", shard, node.id),
